@@ -171,14 +171,23 @@ func c19freeRunning(c *core.Ctx) {
 // goroutines and data races; the ordering clauses are C13's.
 func c19traversal(c *core.Ctx) {
 	for _, s := range c13scenarios(c.Quick()) {
-		if s.d.n > 3 || len(s.errs) > 1 || (len(s.roots) > 0 && len(s.errs) > 0) {
+		if len(s.errs) > 1 || (len(s.roots) > 0 && len(s.errs) > 0) {
 			continue
 		}
-		s := s
+		bound := 2
+		if s.d.n > 3 {
+			// 4 services: root selections without failing visit, unbounded concurrency, one preemption
+			// (two dependents of one selected service becoming ready together need four services)
+			if s.d.n > 4 || len(s.roots) != 1 || len(s.errs) > 0 || s.limit != 0 {
+				continue
+			}
+			bound = 1
+		}
+		s, bound := s, bound
 		if c.Expired() {
 			return
 		}
-		c.Do("traversal/"+s.id(), func() core.Outcome { return s.explore(c, 2, "traversal:") })
+		c.Do("traversal/"+s.id(), func() core.Outcome { return s.explore(c, bound, "traversal:") })
 	}
 }
 
